@@ -96,6 +96,9 @@ def run(ctx, case):
         _, pt, _ = M.split_table(dft)
         _, po, _ = M.split_table(dfo)
         rt, rp = pt[""]["rows"], po[p]["rows"]
+        if H.noload_unresolved(rt, rp):
+            ctx.count("twin", "undetermined: a converter / rectifier output current below the solver's 1e-8 A resolution decides between iq and the loaded law")
+            continue
         tt = H.TwinTol(rp, rows2=rt)
         bad = []
         C = M.COLS
